@@ -96,6 +96,18 @@ CLAIMED = {
         note=("trusts CrossHair/z3 and the in-memory store model; <= 1 (quick) / 2 (thorough) names per list; objects "
               "inside containers and load-time type skipping are outside, as the property states"),
         design_ref="DESIGN.md §5 C14"),
+    "C16": dict(
+        engine="S",
+        technique="term-valued symbolic execution of the real NumPy/torch operator code with unit-modulus phasors expanded into (cos, sin) atoms and exact DFTs of length 1/2/4; energy, additivity, roll, inverse, adjoint, projection identities decided by z3 (QF_NRA)",
+        text=("bounded model checking by symbolic execution for all complex array contents, shift vectors, slice thicknesses, "
+              "object phases and measured amplitudes on ROIs 2x2, 4x2, 2x4: Fourier translation and Fresnel propagation preserve "
+              "total intensity, translations add, integer translations are rolls, propagate-then-back is the identity, "
+              "sum_patches is the adjoint of patch extraction (repeats, wrap-around), a pure-phase object conserves the probe "
+              "intensity at the detector, and the single-mode Fourier projection yields exactly the measured magnitudes and is idempotent"),
+        note=("real arithmetic; concrete-shift phase ramps are NumPy complex64, so roll equality is asked with tolerance 4e-6; "
+              "multi-slice pure-phase conservation beyond 2 slices follows by composing decided per-step identities (stated, not "
+              "queried); mixed-state projection branch and gradient_step are outside"),
+        design_ref="DESIGN.md §5 C16"),
     "C18": dict(
         engine="S",
         technique="term-valued symbolic execution of the real COM code (torch via __torch_function__, NumPy via facade) on symbolic positive intensities/masks; z3 decides equality with the weighted-mean oracle, batch/path independence, immutability, integer shift == roll",
